@@ -175,8 +175,8 @@ def model_sub(a, b):
             return False
         if not ba:
             return True
-        if not aa:
-            return ba[0] is typing.Any
+        if not aa:  # a bare tuple is Tuple[Any, ...]: below a variadic Tuple[Any, ...] only
+            return ba[-1] is Ellipsis and ba[0] is typing.Any
         if ba[-1] is Ellipsis:
             if aa[-1] is Ellipsis:
                 return model_sub(aa[0], ba[0])
@@ -446,7 +446,7 @@ class C16(Prop):
         from funsor.terms import Binary, Funsor, Number, Reduce, Unary, Variable
 
         e = env()
-        if "pair" in case or "entry" in case:
+        if "pair" in case or "entry" in case or "triple" in case:
             return self.replay_entry(case)
         if case["seed"] % 4 == 0:
             return self.check_variadic_history(case, stt)
@@ -520,9 +520,26 @@ class C16(Prop):
     def replay_entry(self, case):
         e = env()
         pool = e["pool"]
+        def find(k, idx):
+            # pool entries are addressed by their repr (stable when the pool grows), falling back to the index
+            reprs = case.get("reprs")
+            if reprs:
+                for t in pool:
+                    if repr(t) == reprs[k]:
+                        return t
+            return pool[idx]
+
         if "pair" in case:
             i, j = case["pair"]
-            self.check_pair(pool[i], pool[j])
+            a, b = find(0, i), find(1, j)
+            if i == j and R(a, a) is False:
+                raise Violation("not-reflexive", f"{a!r} is not a subtype of itself")
+            self.check_pair(a, b)
+        if "triple" in case:
+            i, j, l = case["triple"]
+            a, b, c = find(0, i), find(1, j), find(2, l)
+            if R(a, b) and R(b, c) and R(a, c) is False:
+                raise Violation("not-transitive", f"{a!r} <= {b!r} <= {c!r} but not {a!r} <= {c!r}")
         return
 
     def check_pair(self, a, b):
@@ -547,7 +564,7 @@ class C16(Prop):
         k = 0
         for i, a in enumerate(pool):
             if R(a, a) is False:
-                viol("not-reflexive", f"{a!r} is not a subtype of itself", {"pair": [i, i]})
+                viol("not-reflexive", f"{a!r} is not a subtype of itself", {"pair": [i, i], "reprs": [repr(a), repr(a)]})
             for j, b in enumerate(pool):
                 k += 1
                 if k % nshards != shard:
@@ -556,7 +573,7 @@ class C16(Prop):
                 try:
                     self.check_pair(a, b)
                 except Violation as v:
-                    viol(v.bucket, v.message, {"pair": [i, j]})
+                    viol(v.bucket, v.message, {"pair": [i, j], "reprs": [repr(a), repr(b)]})
                     continue
                 if origin_args(a)[1] or origin_args(b)[1]:
                     stt.mark_nontrivial(f"pair:{i}:{j}")
@@ -571,11 +588,9 @@ class C16(Prop):
             cnt += 1
             if cnt % nshards != shard:
                 continue
-            if tier == "quick" and (cnt // nshards) % 23 != seed % 23:
-                continue
             stt.evaluations += 1
             if rel[i, j] and rel[j, l] and rel[i, l] is False:
-                viol("not-transitive", f"{pool[i]!r} <= {pool[j]!r} <= {pool[l]!r} but not {pool[i]!r} <= {pool[l]!r}", {"triple": [i, j, l]})
+                viol("not-transitive", f"{pool[i]!r} <= {pool[j]!r} <= {pool[l]!r} but not {pool[i]!r} <= {pool[l]!r}", {"triple": [i, j, l], "reprs": [repr(pool[i]), repr(pool[j]), repr(pool[l])]})
         # instance membership
         from funsor.typing import deep_isinstance
 
